@@ -36,6 +36,9 @@ inductive Out (α : Type)
 inductive Conv | id | toTuple | toList
   deriving DecidableEq, Repr
 
+/-- insertion-ordered dict (`vars(namespace)`, `constructor_arguments[dest]`, the attributes of an instance) -/
+abbrev Dict (V : Type) := List (Str × V)
+
 /-- The operations on Python values the post-processing uses. -/
 structure Alg (V : Type) where
   /-- `None` -/
@@ -48,10 +51,12 @@ structure Alg (V : Type) where
   conv : Conv → V → V
   /-- `==` -/
   eq : V → V → Bool
+  /-- `value is None` (read by `_is_at_default`, parsing.py, fix d1d203e) -/
+  isNone : V → Bool := fun _ => false
+  /-- the attributes of a dataclass instance; `Option.none` = `dataclasses.is_dataclass(value)` is False -/
+  attrs : V → Option (Dict V) := fun _ => Option.none
 
 /-! ### insertion-ordered dicts (`vars(namespace)`, `constructor_arguments[dest]`) -/
-
-abbrev Dict (V : Type) := List (Str × V)
 
 /-- `d.get(k)` -/
 def dget {V} : Dict V → Str → Option V
@@ -97,6 +102,43 @@ structure FieldW (V : Type) where
   dflt : V
   conv : Conv
 
+/-- what `_is_at_default` reads of a nested member's wrapper (`wrapper._children`, recursively): the attribute name
+    (`child.name`), its field wrappers and its own children -/
+inductive ChildW (V : Type) where
+  | mk (name : Str) (fields : List (FieldW V)) (children : List (ChildW V))
+
+def ChildW.name {V} : ChildW V → Str
+  | .mk n _ _ => n
+
+/-- `all(getattr(value, fw.name) == fw.default for fw in wrapper.fields if not fw.is_subgroup)`; a missing attribute
+    (AttributeError in the code, impossible for a built instance) counts as "not at default" -/
+def fieldsAtDefault {V} (A : Alg V) (d : Dict V) : List (FieldW V) → Bool
+  | [] => true
+  | f :: fs =>
+    (f.isSubgroup ||
+     (match dget d f.name with
+      | some x => A.eq x f.dflt
+      | none => false)) && fieldsAtDefault A d fs
+
+mutual
+/-- `_is_at_default(child, value)` (parsing.py, fix d1d203e): `None` is at default; something that is not a dataclass
+    instance (a dict kept under SUPPRESS) is not; an instance is when all its fields and, recursively, all its nested
+    members are -/
+def ChildW.atDefault {V} (A : Alg V) : ChildW V → V → Bool
+  | .mk _ fields children, v =>
+    if A.isNone v then true
+    else match A.attrs v with
+      | none => false
+      | some d => fieldsAtDefault A d fields && ChildW.allAtDefault A d children
+/-- `all(_is_at_default(child, getattr(value, child.name)) for child in wrapper._children)` -/
+def ChildW.allAtDefault {V} (A : Alg V) (d : Dict V) : List (ChildW V) → Bool
+  | [] => true
+  | .mk n fs cs :: rest =>
+    (match dget d n with
+     | some x => ChildW.atDefault A (.mk n fs cs) x
+     | none => false) && ChildW.allAtDefault A d rest
+end
+
 /-- one `DataclassWrapper` -/
 structure DcW (V : Type) where
   /-- `wrapper.dest` -/
@@ -114,6 +156,8 @@ structure DcW (V : Type) where
   /-- identifies `wrapper.dataclass_fn` -/
   ctor : Str
   fields : List (FieldW V)
+  /-- `wrapper._children` as `_is_at_default` reads them (only consulted when `optNone`) -/
+  children : List (ChildW V) := []
 
 /-- what `_postprocessing` reads off `self` -/
 structure PState (V : Type) where
@@ -254,7 +298,13 @@ def createInstance {V} (A : Alg V) (w : DcW V) (args : Dict V) : Out V :=
   if w.optNone then
     match allAtDefault A args w.fields with
     | none => .raise .keyError
-    | some true => .ok A.none                             -- :1159
+    | some true =>
+      -- the `else` of the loop (fix 3f531df / d1d203e): the nested members built so far must be at their defaults too;
+      -- `constructor_args.get(child.name)`: a missing entry is `None`, which is "at default"
+      if w.children.all (fun c => match dget args c.name with
+                                  | some x => c.atDefault A x
+                                  | none => true)
+      then .ok A.none else construct
     | some false => construct
   else construct
 
@@ -419,6 +469,8 @@ def pconv : Conv → PVal → PVal
 
 def palg : Alg PVal :=
   { none := .none, dict := .dict, construct := fun cls kvs => some (.inst cls kvs), conv := pconv,
-    eq := fun a b => a == b }
+    eq := fun a b => a == b,
+    isNone := fun v => match v with | .none => true | _ => false,
+    attrs := fun v => match v with | .inst _ kvs => some kvs | _ => Option.none }
 
 end SpVerif.Post
